@@ -670,14 +670,17 @@ def run_c18(tier, deadline):
     jobs = []
     k = 0
 
-    def add(c, comp, mode, bound, threads, core, dl=None):
+    def add(c, comp, mode, bound, threads, core, dl=None, seq=False):
         nonlocal k
         tmpd = os.path.join(workdir, "t%d" % k)
         k += 1
         os.makedirs(tmpd, exist_ok=True)
-        args = ["--config", c, "--mode", mode, "--bound", str(bound), "--threads", str(threads), "--tmpdir", tmpd, "--tier", tier] + (["--core"] if core else [])
-        j = Job(builds[(c, comp)], args, label="%s %s %s k=%d P<=%d%s" % (comp, c, mode, threads, bound, " core" if core else ""), timeout=(dl or deadline) + 300, deadline=dl or deadline, env=TSAN_ENV)
+        args = ["--config", c, "--mode", mode, "--bound", str(bound), "--threads", str(threads), "--tmpdir", tmpd, "--tier", tier] + (["--core"] if core else []) + (["--seq"] if seq else [])
+        j = Job(builds[(c, comp)], args, label="%s %s %s k=%d P<=%d%s%s" % (comp, c, mode, threads, bound, " core" if core else "", " two-call sequences" if seq else ""), timeout=(dl or deadline) + 300, deadline=dl or deadline, env=TSAN_ENV)
         jobs.append(j)
+
+    for c in (["dir_int", "und_string", "dweighted", "umulti"] if tier == "quick" else classes):
+        add(c, "g++", "coarse", 2, 2, False, seq=True)   # each thread makes two const calls in a row
 
     for c in classes:
         add(c, "g++", "coarse", 2, 2, False)     # all pairs, synchronisation-level switch points (thread start/end, locks)
